@@ -335,7 +335,9 @@ func (r *g2Result) reportHandlers(c *ev.Check) {
 		}
 		o := own(s)
 		if len(o) == 0 {
-			collapsed++
+			if !handled(s) {
+				collapsed++
+			}
 			continue
 		}
 		hr := ranOf(s)
